@@ -167,6 +167,28 @@ class ExtRef(object):
         return hash(('ext', self.name))
 
 
+class _Normalise(ast.NodeTransformer):
+    """annotations carry no behaviour: `x: T = v` is read as `x = v`, a bare
+    `x: T` as nothing, parameter / return annotations are dropped -- every
+    analysis sees the same tree with or without type hints"""
+
+    def visit_AnnAssign(self, node):
+        self.generic_visit(node)
+        if node.value is None:
+            return ast.copy_location(ast.Pass(), node)
+        return ast.copy_location(
+            ast.Assign(targets=[node.target], value=node.value), node)
+
+    def visit_arg(self, node):
+        node.annotation = None
+        return node
+
+    def visit_FunctionDef(self, node):
+        self.generic_visit(node)
+        node.returns = None
+        return node
+
+
 class Module(object):
     def __init__(self, name, path, relpath, is_pkg, src):
         self.name = name
@@ -175,7 +197,8 @@ class Module(object):
         self.is_pkg = is_pkg
         self.src = src
         self.lines = src.splitlines()
-        self.tree = ast.parse(src, filename=path)
+        self.tree = _Normalise().visit(ast.parse(src, filename=path))
+        ast.fix_missing_locations(self.tree)
         self.ns = None                # name -> binding (lazily built)
         self._building = False
         self.classes = {}
